@@ -15,6 +15,7 @@ RULE = ("Hypothesis-generated (scenario, schedule) cases biased to data shapes (
         "data); distinct = distinct case hashes"
         "; in addition six long runs (until 80 / 120 / 1100, strides of hundreds, 24 simulators) under FIFO, LIFO and a starved simulator, and the "
         "extreme policies (LIFO, steps first, get_data first, each simulator starved) before every schedule enumeration")
+RULE += '; value shapes (objects, lists, falsy values, small repeating domains), World.get_data before run(), connect inside open groups, child entities of a non-public model, async_requests flags'
 ASSUMPTIONS = [
     "payloads are opaque JSON tokens; one connection per input slot (source entity, destination entity, attribute)",
     "persistent attributes are present in every reply; future `time` only from simulators without connected "
